@@ -365,3 +365,5 @@ def run(tier, seed):
 
 
 RULE += (' Requests carrying an individual already marked evaluated (every third request); training set loaded by read_from_data_store (four preload/step combinations).')
+
+RULE += (' Beyond small: 1100 requests for train_step 1, 7, 100, 500; requests through Algorithm.evaluate and Job (serial and parallel): the training set holds the unrounded true values.')
